@@ -39,6 +39,23 @@
 (*   OnTimeout = "ready": the code - gives up and becomes ready anyway.     *)
 (*   OnTimeout = "stuck": returns without becoming ready (seeded C08-1).    *)
 (*              Readiness must FAIL with it.                                *)
+(* Transport of the gossip packets (CONSTANT Transport):                    *)
+(*   "udp": datagrams (memberlist's NetTransport) - nothing to keep.        *)
+(*   "tls": cluster.TLSTransport (cluster.tls-config) - every packet to p   *)
+(*          is written on ONE pooled connection (connection_pool.go); a     *)
+(*          write that fails marks the connection dead (tlsConn.Write:      *)
+(*          live = false) and borrowConnection dials a new one for the next *)
+(*          packet.  pool[s][p]: "none" (nothing pooled / marked dead),     *)
+(*          "ok", "broken" (reset by the network or by a restart of p; the  *)
+(*          pool does not know yet), "stale" (a write failed but the        *)
+(*          connection stayed in the pool).  The one write that finds a     *)
+(*          reset connection loses its packet (counted: write_errors_total) *)
+(*          - that is the price of a reset, and the only one.               *)
+(*   Redial = "on_failure": the code.  Redial = "never": a failed write     *)
+(*          does not mark the connection dead (seeded C19-4): every later   *)
+(*          packet to that member is lost.  Delivered must FAIL with it.    *)
+(* Oversized updates and push/pull use a stream dialled per use: a reset of *)
+(* the pooled connection does not concern them.                             *)
 (* Not modelled here (see Gossip.tla): packet loss / duplication, the       *)
 (* bounded oversize queue, byte strings.  A false failure detection of a    *)
 (* running peer is an environment fault the harness recognises (premise of  *)
@@ -53,7 +70,9 @@ CONSTANTS Ids, InitUp,      \* identities; those running, mutually known and rea
           SendList,         \* "current" | "cached"
           OnTimeout,        \* "ready" | "stuck"
           OkayRequired,     \* NumOkayRequired = 3
-          Budgets           \* numbers of polls that fit before the settle context expires
+          Budgets,          \* numbers of polls that fit before the settle context expires
+          Transport,        \* "udp" | "tls"
+          Redial            \* "on_failure" | "never"
 
 VARIABLES life,    \* identity -> "new" | "up" | "left" | "crashed"
           mem, ghost, failed,
@@ -63,14 +82,16 @@ VARIABLES life,    \* identity -> "new" | "up" | "left" | "crashed"
           net,     \* messages in flight: [u, to, kind]
           origin,  \* update -> identity that broadcast it ("-": not yet)
           cohort,  \* update -> the peers that were connected to the origin at the broadcast and stayed so
+          pool,    \* identity -> identity -> state of the pooled packet connection (Transport = "tls")
+          hurt,    \* small updates of which a packet was lost by the one write that found a reset connection
           wide,    \* small updates that were queued during a gossip tick of their origin that did not serve every
                    \* gossip target (more than Fanout targets, or the random draw came up short)
           ready,   \* identity -> readyc closed
           settle,  \* identity -> [phase, okay, npeers, polls, budget]
-          used,    \* budgets [stop, join]
+          used,    \* budgets [stop, join, reset]
           last     \* observation: the operation, its arguments, its replies
 
-vars == <<life, mem, ghost, failed, cache, st, gq, net, origin, cohort, wide, ready, settle, used, last>>
+vars == <<life, mem, ghost, failed, cache, st, gq, net, origin, cohort, pool, hurt, wide, ready, settle, used, last>>
 
 Updates == Small \cup Big
 Up == {n \in Ids : life[n] = "up"}
@@ -98,11 +119,24 @@ Init ==
   /\ net = {}
   /\ origin = [u \in Updates |-> "-"]
   /\ cohort = [u \in Updates |-> {}]
+  /\ pool = [s \in Ids |-> [p \in Ids |-> IF Transport = "tls" /\ s \in InitUp /\ p \in InitUp \ {s} THEN "ok" ELSE "none"]]   \* pings have long dialled
+  /\ hurt = {}
   /\ wide = {}
   /\ ready = [n \in Ids |-> n \in InitUp]
   /\ settle = [n \in Ids |-> Settled]
-  /\ used = [stop |-> 0, join |-> 0]
+  /\ used = [stop |-> 0, join |-> 0, reset |-> 0]
   /\ last = [op |-> "init"]
+
+-----------------------------------------------------------------------------
+(* TLSTransport.WriteTo(packet, p) at s: borrowConnection, writePacket.     *)
+Leaves(s, p) == Transport = "udp" \/ pool[s][p] \in {"none", "ok"}      \* the packet leaves s (a dial may still find nobody)
+Finds(s, p) == Transport = "tls" /\ pool[s][p] = "broken"              \* the write that finds the reset
+PoolAfter(s, p) ==
+  IF Transport = "udp" THEN pool[s][p]
+  ELSE CASE pool[s][p] = "none" -> IF life[p] = "up" THEN "ok" ELSE "none"
+         [] pool[s][p] = "ok" -> "ok"
+         [] pool[s][p] = "broken" -> IF Redial = "on_failure" THEN "none" ELSE "stale"
+         [] OTHER -> "stale"
 
 -----------------------------------------------------------------------------
 (* The state's broadcast function = Channel.Broadcast at s.                 *)
@@ -123,7 +157,7 @@ Bcast(s, u) ==
                /\ cache' = [cache EXCEPT ![s] = [valid |-> TRUE, list |-> L]]
                /\ UNCHANGED gq
                /\ last' = [op |-> "bcast", n |-> s, u |-> u, big |-> TRUE, list |-> L, conn |-> Conn(s)]
-  /\ UNCHANGED <<life, mem, ghost, failed, wide, ready, settle, used>>
+  /\ UNCHANGED <<life, mem, ghost, failed, pool, hurt, wide, ready, settle, used>>
 
 (* One gossip tick of s with something queued: the targets in the order     *)
 (* memberlist drew them; every queued message goes to the first             *)
@@ -137,7 +171,11 @@ Tick(s, q) ==
          sendsOf(u) == {q[i] : i \in 1 .. Min(k, TxLimit - gq[s][u])}
          after == [u \in DOMAIN gq[s] |-> gq[s][u] + Min(k, TxLimit - gq[s][u])]
          keep == {u \in DOMAIN gq[s] : after[u] < TxLimit}
-     IN /\ net' = net \cup UNION {{[u |-> u, to |-> p, kind |-> "udp"] : p \in {x \in sendsOf(u) : life[x] = "up"}} : u \in DOMAIN gq[s]}
+         sentTo(p) == {u \in DOMAIN gq[s] : p \in sendsOf(u)}
+         written == {p \in {q[i] : i \in 1 .. k} : sentTo(p) # {}}          \* one packet (one write) per target
+     IN /\ net' = net \cup UNION {{[u |-> u, to |-> p, kind |-> "udp"] : p \in {x \in sendsOf(u) : life[x] = "up" /\ Leaves(s, x)}} : u \in DOMAIN gq[s]}
+        /\ pool' = [pool EXCEPT ![s] = [p \in Ids |-> IF p \in written THEN PoolAfter(s, p) ELSE pool[s][p]]]
+        /\ hurt' = hurt \cup UNION {sentTo(p) : p \in {x \in written : Finds(s, x)}}
         /\ gq' = [gq EXCEPT ![s] = [u \in keep |-> after[u]]]
         /\ wide' = IF {q[i] : i \in 1 .. k} # G(s) THEN wide \cup DOMAIN gq[s] ELSE wide
         /\ last' = [op |-> "tick", n |-> s, order |-> q]
@@ -150,7 +188,7 @@ Deliver(pk) ==
   /\ net' = net \ {pk}
   /\ st' = IF life[pk.to] = "up" THEN [st EXCEPT ![pk.to] = @ \cup {pk.u}] ELSE st
   /\ last' = [op |-> "deliver", u |-> pk.u, n |-> pk.to, kind |-> pk.kind]
-  /\ UNCHANGED <<life, mem, ghost, failed, cache, gq, origin, cohort, wide, ready, settle, used>>
+  /\ UNCHANGED <<life, mem, ghost, failed, cache, gq, origin, cohort, pool, hurt, wide, ready, settle, used>>
 
 (* A node stops: Leave (the others learn that it LEFT) or a crash (the      *)
 (* others find it dead by probing and keep gossiping to it for a while).    *)
@@ -163,8 +201,10 @@ Stop(n, how) ==
   /\ ready' = [ready EXCEPT ![n] = FALSE]
   /\ settle' = [settle EXCEPT ![n] = Settled]
   /\ used' = [used EXCEPT !.stop = @ + 1]
+  /\ pool' = IF Transport = "udp" THEN pool       \* the process is gone: its pool too, and the connections to it are broken
+             ELSE [s \in Ids |-> [p \in Ids |-> IF s = n THEN "none" ELSE IF p = n /\ pool[s][p] = "ok" THEN "broken" ELSE pool[s][p]]]
   /\ last' = [op |-> how, n |-> n]
-  /\ UNCHANGED <<mem, ghost, failed, st, net, origin, wide>>
+  /\ UNCHANGED <<mem, ghost, failed, st, net, origin, hurt, wide>>
 
 Detect(m, n) ==
   /\ life[m] = "up" /\ life[n] \in {"left", "crashed"} /\ n \in mem[m]
@@ -172,7 +212,7 @@ Detect(m, n) ==
   /\ ghost' = [ghost EXCEPT ![m] = IF life[n] = "crashed" THEN @ \cup {n} ELSE @]
   /\ failed' = [failed EXCEPT ![m] = @ \cup {n}]           \* peerLeave
   /\ last' = [op |-> "detect", m |-> m, n |-> n]
-  /\ UNCHANGED <<life, cache, st, gq, net, origin, cohort, wide, ready, settle, used>>
+  /\ UNCHANGED <<life, cache, st, gq, net, origin, cohort, pool, hurt, wide, ready, settle, used>>
 
 (* A new identity starts and joins through s (Peer.Join: push/pull with     *)
 (* join = true: it obtains the states and the member list of s), then runs  *)
@@ -186,7 +226,7 @@ Join(n, s, b) ==
   /\ settle' = [settle EXCEPT ![n] = Polling(b)]
   /\ used' = [used EXCEPT !.join = @ + 1]
   /\ last' = [op |-> "join", n |-> n, s |-> s, budget |-> b, had |-> st[s]]
-  /\ UNCHANGED <<ghost, failed, cache, gq, net, origin, cohort, wide>>
+  /\ UNCHANGED <<ghost, failed, cache, gq, net, origin, cohort, pool, hurt, wide>>
 
 (* m hears of n from a peer x that gossips to m (alive message).            *)
 Learn(m, n) ==
@@ -196,7 +236,7 @@ Learn(m, n) ==
   /\ ghost' = [ghost EXCEPT ![m] = @ \ {n}]
   /\ failed' = [failed EXCEPT ![m] = @ \ {n}]              \* peerJoin
   /\ last' = [op |-> "learn", m |-> m, n |-> n]
-  /\ UNCHANGED <<life, cache, st, gq, net, origin, cohort, wide, ready, settle, used>>
+  /\ UNCHANGED <<life, cache, st, gq, net, origin, cohort, pool, hurt, wide, ready, settle, used>>
 
 (* The stopped identity n comes back on its old address with empty states   *)
 (* and joins nobody; it is found by the reconnect loop of a peer that holds *)
@@ -213,7 +253,7 @@ Restart(n, b) ==
   /\ settle' = [settle EXCEPT ![n] = Polling(b)]
   /\ used' = [used EXCEPT !.join = @ + 1]
   /\ last' = [op |-> "restart", n |-> n, budget |-> b]
-  /\ UNCHANGED <<cache, gq, net, origin, cohort, wide>>
+  /\ UNCHANGED <<cache, gq, net, origin, cohort, pool, hurt, wide>>
 
 Reconnect(m, n) ==
   /\ life[m] = "up" /\ life[n] = "up" /\ n \in failed[m]
@@ -222,7 +262,25 @@ Reconnect(m, n) ==
   /\ failed' = [failed EXCEPT ![m] = @ \ {n}]
   /\ st' = [st EXCEPT ![m] = @ \cup st[n], ![n] = @ \cup st[m]]
   /\ last' = [op |-> "reconnect", m |-> m, n |-> n, had |-> st[m]]
-  /\ UNCHANGED <<life, cache, gq, net, origin, cohort, wide, ready, settle, used>>
+  /\ UNCHANGED <<life, cache, gq, net, origin, cohort, pool, hurt, wide, ready, settle, used>>
+
+(* Any other packet of s to p (ping, ack, membership gossip) is a write on  *)
+(* the same pooled connection.                                              *)
+Probe(s, p) ==
+  /\ Transport = "tls" /\ life[s] = "up" /\ p \in G(s) /\ PoolAfter(s, p) # pool[s][p]
+  /\ pool' = [pool EXCEPT ![s][p] = PoolAfter(s, p)]
+  /\ last' = [op |-> "probe", n |-> s, p |-> p, found |-> Finds(s, p)]
+  /\ UNCHANGED <<life, mem, ghost, failed, cache, st, gq, net, origin, cohort, hurt, wide, ready, settle, used>>
+
+(* Fault: the established packet connections towards p are reset (a         *)
+(* middlebox, an idle timeout); p keeps running and stays a member.         *)
+ResetIn(p) ==
+  /\ Transport = "tls" /\ life[p] = "up"
+  /\ \E s \in Ids : pool[s][p] = "ok"
+  /\ pool' = [s \in Ids |-> [x \in Ids |-> IF x = p /\ pool[s][x] = "ok" THEN "broken" ELSE pool[s][x]]]
+  /\ used' = [used EXCEPT !.reset = @ + 1]
+  /\ last' = [op |-> "resetin", n |-> p, broke |-> {s \in Ids : pool[s][p] = "ok"}]
+  /\ UNCHANGED <<life, mem, ghost, failed, cache, st, gq, net, origin, cohort, hurt, wide, ready, settle>>
 
 -----------------------------------------------------------------------------
 (* Peer.Settle, one iteration of its loop after time.After(interval).       *)
@@ -238,7 +296,7 @@ Poll(n) ==
                                                              !.npeers = now, !.polls = s.polls + 1, !.budget = s.budget - 1]]
                /\ UNCHANGED ready
                /\ last' = [op |-> "poll", n |-> n, settled |-> FALSE]
-  /\ UNCHANGED <<life, mem, ghost, failed, cache, st, gq, net, origin, cohort, wide, used>>
+  /\ UNCHANGED <<life, mem, ghost, failed, cache, st, gq, net, origin, cohort, pool, hurt, wide, used>>
 
 (* ... and its context expired.                                             *)
 Expire(n) ==
@@ -246,14 +304,14 @@ Expire(n) ==
   /\ settle' = [settle EXCEPT ![n].phase = "returned"]
   /\ ready' = [ready EXCEPT ![n] = IF OnTimeout = "ready" THEN TRUE ELSE @]
   /\ last' = [op |-> "expire", n |-> n]
-  /\ UNCHANGED <<life, mem, ghost, failed, cache, st, gq, net, origin, cohort, wide, used>>
+  /\ UNCHANGED <<life, mem, ghost, failed, cache, st, gq, net, origin, cohort, pool, hurt, wide, used>>
 
 (* A flush of n reaches ClusterGossipSettleStage.Exec: it returns at once   *)
 (* iff the peer is ready, otherwise it blocks until the flush context ends. *)
 Flush(n) ==
   /\ life[n] = "up"
   /\ last' = [op |-> "flush", n |-> n, ok |-> ready[n], returned |-> settle[n].phase = "returned"]
-  /\ UNCHANGED <<life, mem, ghost, failed, cache, st, gq, net, origin, cohort, wide, ready, settle, used>>
+  /\ UNCHANGED <<life, mem, ghost, failed, cache, st, gq, net, origin, cohort, pool, hurt, wide, ready, settle, used>>
 
 -----------------------------------------------------------------------------
 (* Properties                                                               *)
@@ -265,9 +323,11 @@ Quiet == /\ net = {}
 \* stays connected to it.  Oversized: always.  Small: unless a gossip tick of the
 \* origin left a target out while the update was queued (memberlist retires the
 \* message after TxLimit transmissions whoever received them; the periodic
-\* push/pull repairs it).
+\* push/pull repairs it), or one of its packets was the one lost by the write that
+\* found a reset connection (TLS transport; counted).  A reset costs that one
+\* packet only: every LATER small update is delivered again.
 Delivered ==
-  Quiet => \A u \in Updates : \A p \in cohort[u] : Has(p, u) \/ (u \in Small /\ u \in wide)
+  Quiet => \A u \in Updates : \A p \in cohort[u] : Has(p, u) \/ (u \in Small /\ u \in wide \cup hurt)
 
 \* the guarantee without the excuse (expected to fail)
 DeliveredStrict == Quiet => \A u \in Updates : \A p \in cohort[u] : Has(p, u)
